@@ -12,11 +12,13 @@ PROPERTY = "C20"
 RULES = {
     "R1": "three-table agreement: the targets captured in get_original_methods, patched in wrap_ir_classes "
     "and re-assigned in restore_ir_classes are the same set; each key names its own target; restore uses the "
-    "captured original (properties: original fget + captured fset)",
+    "captured original (properties: original fget + captured fset)"
+    " ; the originals are captured unconditionally in the patching function before the first patch (not at construction time)",
     "R2": "Journal.__exit__ restores the classes and the previous current journal unconditionally; "
     "__enter__ saves both before patching",
     "R3": "wrapper transparency: each wrapper calls the original exactly once with its arguments unchanged, "
-    "returns its result, has no try/except; each details_func accepts the wrapped method's signature",
+    "returns its result, has no try/except; each details_func accepts the wrapped method's signature"
+    "  and does not iterate the call's arguments (nor does a module helper it calls)",
     "R4": "completed operations only: journal.record is dominated by the normal return of the original call",
     "R5": "no strong references: Journal.record hands the object to JournalEntry only as weakref/id/class; "
     "every details value is a string-building expression or None",
